@@ -15,7 +15,11 @@ _CACHE = {}
 def _parse(pattern):
     p = _CACHE.get(pattern)
     if p is None:
-        p = _CACHE[pattern] = ast.parse(pattern, mode='eval').body
+        try:
+            p = ast.parse(pattern, mode='eval').body
+        except SyntaxError:
+            p = ast.parse(pattern).body[0]      # a statement pattern
+        _CACHE[pattern] = p
     return p
 
 
@@ -64,8 +68,9 @@ def _m(p, n, b):
 def pfind(pattern, root, binds=None):
     '''All (node, bindings) under root that match the pattern.'''
     out = []
+    want_stmt = isinstance(_parse(pattern) if isinstance(pattern, str) else pattern, ast.stmt)
     for n in ast.walk(root):
-        if isinstance(n, ast.expr):
+        if isinstance(n, ast.stmt if want_stmt else ast.expr):
             r = pmatch(pattern, n, binds)
             if r is not None:
                 out.append((n, r))
